@@ -156,6 +156,8 @@ fn rbits_fixed<const N: usize>(cx: &mut Cx, reps: usize) {
                 cx.call(ev("int.try_random_bits", tb), || { let mut s = Script::new(st.clone()); match Int::<N>::try_random_bits(&mut Fal(&mut s), bl) { Ok(v) => O::ok().n("v", &wi(&v)).i("c", s.pos as i64), Err(e) => bits_err(e) } });
                 let prec = cx.rng.pick(&[tb, tb + 64, tb - 1, 0, tb + 1]);
                 cx.call(ev("uint.try_random_bits_with_precision", prec), || { let mut s = Script::new(st.clone()); match Uint::<N>::try_random_bits_with_precision(&mut Fal(&mut s), bl, prec) { Ok(v) => O::ok().n("v", &w(&v)).i("c", s.pos as i64), Err(e) => bits_err(e) } });
+                cx.call(ev("int.try_random_bits_with_precision", prec), || { let mut s = Script::new(st.clone()); match Int::<N>::try_random_bits_with_precision(&mut Fal(&mut s), bl, prec) { Ok(v) => O::ok().n("v", &wi(&v)).i("c", s.pos as i64), Err(e) => bits_err(e) } });
+                cx.call(ev("int.random_bits", tb), || { let mut s = Script::new(st.clone()); let v = Int::<N>::random_bits(&mut Inf(&mut s), bl); O::ok().n("v", &wi(&v)).i("c", s.pos as i64) });
             }
             if bl <= tb && bl % 3 == 0 {
                 // same stream, boxed sampler with the same precision
